@@ -413,12 +413,18 @@ class HandleRule:
                     self.same.add(e.targets[0].id)
         for n in g.nodes.values():
             for e in node_exprs(n):
-                if isinstance(e, ast.Assign) and isinstance(e.value, ast.Call) and callee_name(e.value) in wrappers:
-                    a = arg_of(e.value, wrappers[callee_name(e.value)], None)
-                    if a is not None and _handle_name(a) in self.same:
-                        t = _handle_name(e.targets[0])
-                        if t:
-                            self.aliases.add(t)
+                if not isinstance(e, ast.Assign):
+                    continue
+                # `w = Wrapper(h)` and the conditional form `w = None if cond else Wrapper(h)`
+                cands = [e.value] if isinstance(e.value, ast.Call) else \
+                    [b_ for b_ in (e.value.body, e.value.orelse) if isinstance(b_, ast.Call)] if isinstance(e.value, ast.IfExp) else []
+                for cv in cands:
+                    if callee_name(cv) in wrappers:
+                        a = arg_of(cv, wrappers[callee_name(cv)], None)
+                        if a is not None and _handle_name(a) in self.same:
+                            t = _handle_name(e.targets[0])
+                            if t:
+                                self.aliases.add(t)
         self.parked = handle.startswith("self.")
         self.problems: list[tuple[str, int, object]] = []
 
